@@ -14,9 +14,12 @@ import (
 	metav1 "k8s.io/apimachinery/pkg/apis/meta/v1"
 	"k8s.io/apimachinery/pkg/apis/meta/v1/unstructured"
 	"k8s.io/apimachinery/pkg/runtime"
+	"k8s.io/apimachinery/pkg/runtime/schema"
+	"k8s.io/apimachinery/pkg/runtime/serializer"
 	"k8s.io/apimachinery/pkg/types"
 	utilruntime "k8s.io/apimachinery/pkg/util/runtime"
 	clientgoscheme "k8s.io/client-go/kubernetes/scheme"
+	k8stesting "k8s.io/client-go/testing"
 	ctrl "sigs.k8s.io/controller-runtime"
 	"sigs.k8s.io/controller-runtime/pkg/client"
 	"sigs.k8s.io/controller-runtime/pkg/client/apiutil"
@@ -76,6 +79,9 @@ type world struct {
 	rec    *controllers.PodReconciler
 	events *countingRecorder
 
+	tracker k8stesting.ObjectTracker
+	initial *snapshot
+
 	writes []write
 	reads  int
 }
@@ -100,9 +106,19 @@ type snapshot struct {
 	PGs  []*v2alpha2.PodGroup
 }
 
+var (
+	podGVR = schema.GroupVersionResource{Group: "", Version: "v1", Resource: "pods"}
+	pgGVR  = schema.GroupVersionResource{Group: "scheduling.run.ai", Version: "v2alpha2", Resource: "podgroups"}
+)
+
+// newWorld builds the store with the scenario's owners, priority classes and (unreconciled) pods and wires
+// the real reconciler on it. A plain client-go ObjectTracker is used below the fake client (the default
+// field-managed tracker only adds server-side-apply bookkeeping, which the pod-grouper does not use).
 func newWorld(sc *scenario, snap *snapshot) *world {
+	// one scheme per world: the fake client registers unknown owner kinds into it on first use
 	w := &world{sc: sc, scheme: newScheme(), events: &countingRecorder{}}
-	b := fake.NewClientBuilder().WithScheme(w.scheme).WithStatusSubresource(&v2alpha2.PodGroup{})
+	w.tracker = k8stesting.NewObjectTracker(w.scheme, serializer.NewCodecFactory(w.scheme).UniversalDecoder())
+	b := fake.NewClientBuilder().WithScheme(w.scheme).WithObjectTracker(w.tracker).WithStatusSubresource(&v2alpha2.PodGroup{})
 	objs := []client.Object{}
 	for _, pc := range []string{"train", "build", "inference", "prio-high"} {
 		objs = append(objs, &schedulingv1.PriorityClass{ObjectMeta: metav1.ObjectMeta{Name: pc}, Value: 50})
@@ -110,17 +126,8 @@ func newWorld(sc *scenario, snap *snapshot) *world {
 	for _, o := range sc.Owners {
 		objs = append(objs, o.DeepCopy())
 	}
-	if snap == nil {
-		for _, p := range sc.Pods {
-			objs = append(objs, p.DeepCopy())
-		}
-	} else {
-		for _, p := range snap.Pods {
-			objs = append(objs, p.DeepCopy())
-		}
-		for _, g := range snap.PGs {
-			objs = append(objs, g.DeepCopy())
-		}
+	for _, p := range sc.Pods {
+		objs = append(objs, p.DeepCopy())
 	}
 	w.raw = b.WithObjects(objs...).Build()
 	w.cl = interceptor.NewClient(w.raw, w.funcs())
@@ -129,7 +136,30 @@ func newWorld(sc *scenario, snap *snapshot) *world {
 		cfg.SchedulingQueueLabelKey, cfg.NodePoolLabelKey,
 		cfg.DefaultConfigPerTypeConfigMapName, cfg.DefaultConfigPerTypeConfigMapNamespace)
 	w.rec = controllers.NewVerifPodReconciler(w.cl, w.cl, cfg, hub, w.events)
+	w.initial = w.snapshot()
+	if snap != nil {
+		w.reset(snap)
+	}
 	return w
+}
+
+// reset puts the mutable part of the store (pods, PodGroups) back to a snapshot (nil = initial store).
+func (w *world) reset(snap *snapshot) {
+	if snap == nil {
+		snap = w.initial
+	}
+	cur := w.snapshot()
+	for _, g := range cur.PGs {
+		must(w.tracker.Delete(pgGVR, ns, g.Name))
+	}
+	for _, g := range snap.PGs {
+		must(w.tracker.Create(pgGVR, g.DeepCopy(), ns))
+	}
+	for _, p := range snap.Pods {
+		must(w.tracker.Update(podGVR, p.DeepCopy(), ns))
+	}
+	w.events.events = nil
+	w.writes, w.reads = nil, 0
 }
 
 func (w *world) snapshot() *snapshot {
@@ -296,6 +326,13 @@ func diffPodGroups(a, b *v2alpha2.PodGroup) []string {
 	}
 	out = append(out, diffMaps("metadata.labels", a.Labels, b.Labels)...)
 	out = append(out, diffMaps("metadata.annotations", a.Annotations, b.Annotations)...)
+	// the handler's map comparison (mapsEqualBySourceKeys) also distinguishes a nil stored map from an empty desired one
+	if (a.Labels == nil) != (b.Labels == nil) && len(a.Labels) == 0 && len(b.Labels) == 0 {
+		out = append(out, "metadata.labels")
+	}
+	if (a.Annotations == nil) != (b.Annotations == nil) && len(a.Annotations) == 0 && len(b.Annotations) == 0 {
+		out = append(out, "metadata.annotations")
+	}
 	if !reflect.DeepEqual(a.Status, b.Status) {
 		out = append(out, "status")
 	}
